@@ -147,6 +147,35 @@ CLAIMED.update({
     },
 })
 
+CLAIMED.update({
+    "C04": {
+        "text": "Machine-checked proof that for every constructible tree/DAG (ordinary and exotic cells) and each of the 6 "
+                "valid option sets the bytes produced by the model of Cell.to_boc are accepted by the strict decoder of "
+                "boc.tlb (widths sufficient, references forward, index = cumulative end offsets doubled with cache bits, "
+                "CRC-32C over everything before it), decode to the same DAG and contain each distinct cell exactly once; "
+                "the traversal lists every reachable cell once, parents first. Differential run + strict decoding of every "
+                "emitted bag.",
+        "design_ref": "DESIGN.md 4.4",
+        "technique": "Coq proof: DFS invariant for the cell order, per-cell encode/strict-decode inverse for all bit lengths, "
+                     "header arithmetic, CRC bridge through C18; correspondence by extracted OCaml model",
+        "note": "3 theorems closed under the global context; modulo hash collisions among the sub-cells (explicit hypothesis "
+                "no_collision) and for bags of fewer than 2^24 cells.",
+    },
+    "C11": {
+        "text": "Machine-checked proof that every proof built by pruning any set of subtrees of an ordinary tree is accepted "
+                "by the models of check_proof and check_block_header_proof (complete), that acceptance means what it should, "
+                "and that a virtualised tree whose level-0 hash equals the hash of a tree t IS t with pruned subtrees naming "
+                "the right hashes - or an explicit SHA-256 collision is exhibited (sound, no axiom); a pruned-branch "
+                "impostor account state is a collision. Differential run incl. mutations and synthetic shard states "
+                "through the real check_account_proof.",
+        "design_ref": "DESIGN.md 4.11",
+        "technique": "Coq proof: pruning invariance from C02, unique readability of the cell representation, decidable "
+                     "equality of representations to exhibit collisions; correspondence by extracted OCaml model",
+        "note": "7 theorems closed under the global context. The TL-B walk from the shard state to the ShardAccount cell "
+                "inside check_account_proof is not modelled (exercised on the implementation only).",
+    },
+})
+
 PENDING_REASON = "check not built yet in this round (design in DESIGN.md section 4); not claimed until it exists"
 
 
